@@ -113,6 +113,33 @@ CORPUS = {
 (set-info :status unsat)
 (check-sat)
 ''',
+    # logic names that consist of exactly one replaceable fragment
+    'logic-lia': '''(set-logic LIA)
+(declare-const x Int)
+(assert (forall ((y Int)) (> (+ x y) y)))
+(check-sat)
+''',
+    'logic-bv': '''(set-logic BV)
+(declare-const x (_ BitVec 4))
+(assert (forall ((y (_ BitVec 4))) (= (bvand x y) y)))
+''',
+    'logic-uf': '''(set-logic UF)
+(declare-sort U 0)
+(declare-fun f (U) U)
+(assert (forall ((y U)) (= (f y) y)))
+''',
+    # comments inside commands (legal SMT-LIB; kept as leaves by the parser)
+    'comments-inside': '''(set-logic QF_LIA)
+(declare-datatypes ((Lst 0)) (((nil) ; the empty list
+ (cons (hd Int) (tl Lst)))))
+(declare-const ; the variable
+ x Int)
+(declare-fun f (Int ; argument
+ ) Int)
+(assert (> (f x) ; compare
+ 0))
+(check-sat)
+''',
     'names': '''(declare-const x1__fresh Int)
 (declare-const __v (_ BitVec 2))
 (declare-const _v (_ BitVec 4))
